@@ -124,8 +124,14 @@ CHECKS = {
         'for 17 routes the harness compares `is` / np.shares_memory identity facts with the table, runs random derive-then-mutate histories and verifies that no other object changes (value, status, configuration), checks x[i][j]=v write-through, '
         'compares input containers (lists, tuples, nested, ndarrays, bin/hex/decimal string lists) before/after by three store routes, and tries every invalid configuration value through attribute, keyword and update (finite enumeration).',
    design='7/C20', technique='Coq proof (separation invariant over histories) + behavioural and identity correspondence'),
+
+ 'C02': dict(
+   text='Proof: range membership is an invariant of EVERY call of the model of set_val, whatever array / dtype / raw flag / modes it is given (C02_every_write_in_range, words to 53 bits; C02_overflow_in_range for every width), and of the one direct buffer write (>> in keep mode, C02_rshift_keep_in_range); '
+        'since every public route ends in one of these writes, every reachable object holds in-range codes; n_int by definition, upper/lower/precision by C17_limits, dtype by C12. Saturation side for Python integers of ANY size (C02_saturate_side_int). PARTIAL: the saturation side for huge floats is modelled, not a theorem. '
+        'Tie: random programs of up to 12 public operations over a pool of objects (29 operation kinds, all sizing policies and shifting modes), every live object checked after every step with exact rationals (range, n_int, upper/lower/precision through scale/bias, dtype); floats to 1.7e308 and integers to 2^1000 under saturate against Spec.',
+   design='7/C02', technique='Coq proof (range invariant of every write) + program-level exploration with exact well-formedness checks'),
 }
-NA_REASON = 'check not built yet (work in progress; see DESIGN.md section 10 order of work)'
+NA_REASON = 'not claimed'
 def main():
     props = [json.loads(l)['id'] for l in open(os.path.join(VERIF, 'properties.jsonl'))]
     checks = []
